@@ -161,11 +161,16 @@ pub fn gen_config(rng: &mut Rng, client: bool, p: &Profile) -> Config {
             c.initial_max_send_streams = Some(*rng.pick(&[0usize, 1, 2, 4]));
         }
     }
+    // A legal peer may have frames in flight for a stream the endpoint has just reset; h2 tolerates them for as long and
+    // for as many streams as the application configures (documented).  The legal profiles keep that memory at its
+    // defaults, otherwise the endpoint would be *configured* to answer the race with an error.
     if rng.chance(1, 4) {
-        c.max_concurrent_reset_streams = Some(*rng.pick(&[0usize, 1, 2, 10]));
+        let v = *rng.pick(&[0usize, 1, 2, 10]);
+        if !p.legal_peer { c.max_concurrent_reset_streams = Some(v); }
     }
     if rng.chance(1, 3) {
-        c.reset_stream_duration_ms = Some(*rng.pick(&[0u64, 1, 1000]));
+        let v = *rng.pick(&[0u64, 1, 1000]);
+        if !p.legal_peer { c.reset_stream_duration_ms = Some(v); }
     }
     if !p.legal_peer && rng.chance(1, 5) {
         c.max_pending_accept_reset_streams = Some(*rng.pick(&[0usize, 1, 3]));
